@@ -2,7 +2,7 @@
 
 from __future__ import annotations
 
-from contracts.c05_align import build_alignment, rotation_pools, wigner_unitarity_lemmas
+from contracts.c05_align import build_alignment, inner_pools, rotation_pools, wigner_unitarity_lemmas
 from contracts.c05_spin import build_spin_range
 from vlib.core import Check
 
@@ -18,7 +18,7 @@ CLAIM = (
     "M^dagger M = 1 for all rotation angles, hence aligned intensity = unaligned intensity for all amplitude values at every event; D^j is unitary for j <= 5/2."
 )
 NOTE = (
-    "Structural enumeration (the bound): 8 single-topology zoo reactions (spins 0, 1/2, 1, 3/2; massless photon) x alignments; within each, angles and amplitudes are "
+    "Structural enumeration (the bound): 9 single-topology zoo reactions (spins 0, 1/2, 1, 3/2; massless photon, massless neutrino) x alignments; within each, angles and amplitudes are "
     "unbounded. float/Decimal as mathematical reals (A-arith); assumed contracts of list.append/list.remove; SymPy's Rotation.d explicit formulas are not trusted: "
     "their unitarity is an obligation. Unitarity is proved for ALL angle values (stronger than the statement); a refuted entry counts as a violation only if the replay "
     "on physical events (real kinematic-variable definitions evaluated on generated four-momenta) reproduces aligned != unaligned."
@@ -30,5 +30,6 @@ def build(chk: Check) -> None:
     chk.assume("A-arith: float / Decimal arithmetic is exact real arithmetic (exact for the half-integers that occur)")
     build_spin_range(chk)
     rotation_pools(chk)
+    inner_pools(chk)
     wigner_unitarity_lemmas(chk)
     build_alignment(chk)
